@@ -9,7 +9,7 @@ DEFAULT_WEIGHTS = {
     "advance": 10, "stake": 14, "unstake": 9, "submit": 7, "deliver": 6, "rewards": 5, "withdraw": 8,
     "ack": 10, "timeout": 3, "recover": 5, "stray": 2, "breaker": 1, "resume": 2, "update_config": 2,
     "validators": 1, "ownership": 3, "fee_withdraw": 2, "donate": 1, "unauthorized": 4, "garbage": 1,
-    "outage": 1,
+    "outage": 1, "longrun": 0,
 }
 
 
@@ -116,6 +116,44 @@ class Gen:
             out.append(exec_ev(self.some_user(), {"recover_pending_ibc_transfers": {
                 "paginated": pag, "selected_packets": None, "receiver": r.choice([None, None, su.staker])}}, [], self.faults()))
         return out
+
+    def ev_longrun(self):
+        """one account unstakes into more than thirty consecutive batches, each submitted as soon as it is due (at most
+        once per history): a per-user request index longer than any page size or cap the queries might apply, and a
+        long tail of Submitted batches"""
+        r = self.rng
+        su = self.su
+        h = self.h
+        st = h_state(h)
+        if getattr(h, "longrun_done", False):
+            return self.ev_unstake()
+        if st is None or h.config().get("stopped"):
+            return self.ev_resume()
+        h.longrun_done = True
+        u = r.choice(su.users)
+        k = r.choice([31, 32, 35])
+        need = 4 * k
+        if h.bal(u, su.lst) < need:
+            amt = max(su.min_stake, 10 * need)
+            self.ensure_funds(u, STAKED, amt)
+            h.event(exec_ev(u, {"liquid_stake": {"mint_to": None, "transfer_to_native_chain": None, "expected_mint_amount": None}},
+                            [coin(STAKED, amt)]))
+        for i in range(k):
+            if h.bal(u, su.lst) < 3:
+                break
+            h.event(exec_ev(u, {"liquid_unstake": {}}, [coin(su.lst, r.choice([1, 2, 3]))]))
+            if r.random() < 0.2:      # a second requester in some batches, a top-up in others
+                v = r.choice(su.users)
+                if h.bal(v, su.lst) > 0:
+                    h.event(exec_ev(v, {"liquid_unstake": {}}, [coin(su.lst, 1)]))
+            pend = [b for b in h.batches() if b["status"] == "pending"]
+            if not pend:
+                break
+            due = int(pend[0]["next_batch_action_time"])
+            if due > h.time:
+                h.event({"ev": "advance", "dt": str(due - h.time + r.choice([0, 1, NS])), "dh": 1})
+            h.event(exec_ev(r.choice(su.users), {"submit_batch": {}}, []))
+        return [exec_ev(u, {"liquid_unstake": {}}, [coin(su.lst, 1)])] if h.bal(u, su.lst) > 0 else self.ev_advance()
 
     # -- event builders; each returns a list of events (usually one) --
     def ev_advance(self):
